@@ -50,10 +50,12 @@ class IterE(ListE):
 
     consumed = False
     free = None
+    pending = None  # (exception, state at creation): computing the items RAISED without changing anything - CPython raises
+    #                 that exception when the iterator is consumed; only a complete consumer (list, sum ...) may take it
 
     def copy(self):
         c = IterE(self.items)
-        c.consumed, c.free = self.consumed, self.free
+        c.consumed, c.free, c.pending = self.consumed, self.free, self.pending
         return c
 
 
